@@ -50,6 +50,29 @@ example : (true, 100000000007, 100000000007, 4, 100000000007, 100000000000, 4, f
     (true, 100000000007, 100000000007, 4, 100000000000, 100000000007, 4, false) ∈ Gen.WorkTree.statProbes := by
   decide
 
+/-- The scan of `get_unstaged_changes`, serial or divided among threads (`core.preloadIndex`), visits
+every index entry exactly once, whatever the number of entries and of workers: the slices, put end to
+end, are the positions `0 … n-1` in index order — so that the model's single pass over the index
+(`unstagedOf`) describes it. -/
+theorem scan_slices_cover (n workers : Nat) : (scanSlices n workers).flatten = List.range n := by
+  unfold scanSlices
+  induction List.range n with
+  | nil => rfl
+  | cons x r ih => simp [List.map_cons, List.flatten_cons, ih]
+
+/-- … and the source agrees: `get_unstaged_changes`, run from its source by the translator on fake
+indexes of 0 … 41 entries with 1 … 16 workers (and serially) with `_check_entry_for_changes` replaced
+by a recorder, calls it for every position exactly once.  (For 99 … 4001 entries the translator makes
+the same check itself and refuses to translate otherwise.) -/
+theorem scan_probes_exact :
+    Gen.WorkTree.scanProbes.all (fun r =>
+      match r with
+      | (n, _, visited) => visited.length == n && (List.range n).all (fun i => visited.contains i)) = true := by
+  decide
+
+example : (17, 8, List.range 17) ∈ Gen.WorkTree.scanProbes ∧ (41, 3, List.range 41) ∈ Gen.WorkTree.scanProbes := by
+  decide
+
 /-! ## 1. status is exact -/
 
 /-- What "exact" means: the five lists are the three-way comparison of HEAD, index and directory. -/
@@ -503,19 +526,21 @@ content, executable bit and type in every combination (in particular `W = T ≠ 
 back by hand under a staged modification) — as long as no path of index, work tree and target lies
 below another.  The reset succeeds, HEAD is the target, the index's tree is the target, every tracked
 path holds the target's entry on disk, untracked files are untouched, and nothing is staged or
-unstaged.  `NoGoneEntries` is the hypothesis the code as it is forces (finding
-hardreset-deleted-file-keeps-index-entry); it is void once `_transition_to_absent` drops the index
-entry of a file that is already gone. -/
+unstaged.  (Before 38aea9c the index entry of a file that was already deleted survived; the lemma
+`resetHard_outcome` keeps the hypothesis `NoGoneEntries` that variant needs, and
+`reset_hard_gone_entry_witness` shows both variants.) -/
 theorem reset_hard_exact (w : World) (t : FMap Entry) (obs : Obs)
     (hflat : Flat (w.index.keys ++ w.wd.keys ++ t.keys))
     (hvi : w.index.keys.all validPath = true) (hvt : t.keys.all validPath = true)
-    (hobs : t.keys.all obs.has = true) (hgone : NoGoneEntries cur w t) :
+    (hobs : t.keys.all obs.has = true) :
     ∃ w', resetHard cur w t obs = ⟨w', none⟩ ∧ w'.head = t ∧
       (∀ p, (treeOf w'.index).get p = t.get p) ∧
       (∀ p, ((w.index.get p).isSome = true ∨ (t.get p).isSome = true) → wdEntry w'.wd p = t.get p) ∧
       (∀ p, w.index.get p = none → t.get p = none → w'.wd.get p = w.wd.get p) ∧
       stagedAdd w'.head w'.index = [] ∧ stagedDel w'.head w'.index = [] ∧ stagedMod w'.head w'.index = [] ∧
       unstagedOf cur w'.wd w'.index = .ok [] := by
+  -- `_transition_to_absent` drops the index entry of a file that is already gone (translated flag)
+  have hgone : NoGoneEntries cur w t := Or.inl rfl
   obtain ⟨w', hr, hh, ho⟩ := resetHard_outcome cur rfl w t obs hflat hvi hvt hobs hgone
   have hview : ∀ p f, w'.wd.get p = some f → hasFileAncestor w'.wd p = false := by
     intro p f hf
@@ -593,7 +618,7 @@ def obsThreeWay : Obs := [(pa, (⟨9, 9, 1⟩, reg)), (pb, (⟨9, 9, 1⟩, reg))
 example : ∃ w', resetHard cur wThreeWay tThreeWay obsThreeWay = ⟨w', none⟩ ∧ w'.head = tThreeWay ∧
     (∀ p, (treeOf w'.index).get p = tThreeWay.get p) ∧ w'.wd.get pu = wThreeWay.wd.get pu := by
   obtain ⟨w', h1, h2, h3, _, h5, _⟩ := reset_hard_exact wThreeWay tThreeWay obsThreeWay
-    (by decide) (by decide) (by decide) (by decide) (by decide)
+    (by decide) (by decide) (by decide) (by decide)
   exact ⟨w', h1, h2, h3, h5 pu (by decide) (by decide)⟩
 
 /-- at `a` (`W = T ≠ I`) the file is left alone and only the index entry is rewritten, from the file's
@@ -606,7 +631,7 @@ example :
     (resetHard cur r.world tThreeWay obsThreeWay).world.index = r.world.index ∧
     (resetHard cur r.world tThreeWay obsThreeWay).world.wd = r.world.wd := by decide
 
-/-- FINDING (hardreset-deleted-file-keeps-index-entry), on the variant of the code that returns from
+/-- REGRESSION (fixed, hardreset-deleted-file-keeps-index-entry), on the variant of the code that returns from
 `_transition_to_absent` before dropping the index entry: `a` is staged, deleted from disk, and absent
 from the target; after `reset --hard` the index still has it.  With the entry dropped it is gone. -/
 theorem reset_hard_gone_entry_witness :
